@@ -323,7 +323,7 @@ class Unit(HookHost):
             unit.parent = self._owner()
             super().insert(i, unit)
 
-        def pop(self, i: Union[SupportsIndex, slice] = ...) -> "Unit":
+        def pop(self, i: SupportsIndex = -1) -> "Unit":
             unit = super().pop(i)
             unit.parent = None
             return unit
